@@ -28,7 +28,7 @@ EXPLANATION = (
 )
 NOT_DECIDED = ["identity of member content with direct extraction (bytes, decompression correctness of LZMA/LZMA2/deflate)", "7z header parsing arithmetic (pack sizes, substream sizes, file-to-folder map) as values"]
 TRUSTED = ["zipfile.infolist / tarfile.getmembers return members in archive order", "CFG / lexical path conditions"]
-FLOORS = {"C10-EXACT": 8, "C10-CODEC": 6, "C10-LABEL": 10, "C10-STEP": 2, "C10-ENDIAN": 4, "C10-ORDER": 4, "C10-SIB": 6, "C10-FOLDER": 1, "C10-DISPATCH": 6}
+FLOORS = {"C10-EXACT": 8, "C10-CODEC": 6, "C10-LABEL": 10, "C10-STEP": 2, "C10-ENDIAN": 4, "C10-ORDER": 4, "C10-SIB": 6, "C10-FOLDER": 3, "C10-DISPATCH": 6}
 
 READS = {"_extract_from_zip_optimized": ("read", "info"), "_extract_from_tar_optimized": ("extractfile", "member")}  # method that reads one member
 
@@ -372,8 +372,97 @@ def rule_sib(ctx: Ctx) -> RuleReport:
     return rep
 
 
+def _truth(e, env):
+    """Propositional value of a condition; every sub-expression that is not and/or/not is an atom looked up by its text."""
+    if isinstance(e, ast.BoolOp):
+        vals = [_truth(v, env) for v in e.values]
+        return all(vals) if isinstance(e.op, ast.And) else any(vals)
+    if isinstance(e, ast.UnaryOp) and isinstance(e.op, ast.Not):
+        return not _truth(e.operand, env)
+    return env[norm(e)]
+
+
+def _atoms(e, out):
+    if isinstance(e, ast.BoolOp):
+        for v in e.values:
+            _atoms(v, out)
+    elif isinstance(e, ast.UnaryOp) and isinstance(e.op, ast.Not):
+        _atoms(e.operand, out)
+    else:
+        out.add(norm(e))
+    return out
+
+
+def _streams_consumed(ctx, rep):
+    """7z: an entry consumes a sub-stream size (and a slot of its folder) exactly when it has a stream, i.e. is not in kEmptyStream."""
+    import itertools
+
+    bf = ctx.p.func(SZ, "SevenZipReader._build_file_list")
+    rep.unit(bf.key)
+    params = [a.arg for a in bf.node.args.args]
+    if len(params) < 3:
+        raise AnalysisError("C10-FOLDER: _build_file_list lost its parameters")
+    ES = params[2]  # the kEmptyStream vector (first vector parameter after num_files)
+    loops = sorted([l for l in walk_own(bf.node) if isinstance(l, ast.For)], key=lambda l: l.lineno)
+    sized = [l for l in loops if any(isinstance(n, ast.Subscript) and norm(n.value) == "self._file_sizes" for n in ast.walk(l))]
+    if not sized:
+        raise AnalysisError("C10-FOLDER: no entry loop in _build_file_list takes sizes from self._file_sizes")
+    loop = sized[0]
+    iv = loop.target.id if isinstance(loop.target, ast.Name) else None
+    es_atom = f"{ES}[{iv}]"
+    defs = {n.targets[0].id: n.value for n in loop.body if isinstance(n, ast.Assign) and len(n.targets) == 1 and isinstance(n.targets[0], ast.Name)}
+
+    def expand(e):
+        class T(ast.NodeTransformer):
+            def visit_Name(self, n):
+                return expand(defs[n.id]) if n.id in defs and isinstance(n.ctx, ast.Load) else n
+        import copy
+
+        return T().visit(copy.deepcopy(e))
+
+    cons = [n for n in ast.walk(loop) if isinstance(n, ast.Subscript) and norm(n.value) == "self._file_sizes" and isinstance(n.ctx, ast.Load)]
+    if not cons:
+        raise AnalysisError("C10-FOLDER: _build_file_list no longer takes sizes from self._file_sizes")
+    for c in cons:
+        conds, opaque, _ = path_conditions(bf.node, next(st for st in ast.walk(loop) if isinstance(st, ast.stmt) and any(x is c for x in ast.walk(st)) and not isinstance(st, (ast.If, ast.For, ast.While, ast.Try))))
+        tests = []
+        for cd in conds:
+            try:
+                tests.append(expand(ast.parse(str(cd), mode="eval").body))
+            except SyntaxError:
+                pass
+        atoms = set()
+        for t in tests:
+            _atoms(t, atoms)
+        if es_atom not in atoms:
+            rep.fail(Finding("C10-FOLDER", SZ, bf.qual, "size consumed regardless of kEmptyStream", f"an entry takes the next sub-stream size without a test of `{es_atom}`: entries without a stream (directories, empty files) consume the size of the following file", line=c.lineno))
+            continue
+        bad = None
+        alist = sorted(atoms)
+        for vals in itertools.product([False, True], repeat=len(alist)):
+            env = dict(zip(alist, vals))
+            if env[es_atom] and all(_truth(t, env) for t in tests):
+                bad = {k: v for k, v in env.items() if k != es_atom}
+                break
+        if bad is None:
+            rep.ok({"size_consumed_only_by": f"entries with not {es_atom}", "atoms": alist})
+        else:
+            rep.fail(Finding("C10-FOLDER", SZ, bf.qual, "empty-stream entry consumes a size", f"an entry with `{es_atom}` true (no stream in the archive) still takes the next sub-stream size when {', '.join(f'{k}={v}' for k, v in sorted(bad.items()))}: it receives the bytes of the following member and every later member is shifted", line=c.lineno))
+    # the folder map uses the same predicate the size assignment used
+    ctor = [c for c in ast.walk(loop) if isinstance(c, ast.Call) and (dotted(c.func) or "") == "FileInfo"]
+    kw = {k.arg: norm(k.value) for c in ctor for k in c.keywords}
+    isdir = kw.get("is_directory")
+    size_guard_names = {n.id for c in cons for i in ast.walk(loop) if isinstance(i, ast.If) and any(x is c for x in ast.walk(i)) for n in ast.walk(i.test) if isinstance(n, ast.Name)}
+    maps = [l for l in loops if l is not loop and any(isinstance(a, ast.Attribute) and a.attr == "folder_index" for a in ast.walk(l))]
+    if isdir and isdir in size_guard_names and maps and any(isinstance(a, ast.Attribute) and a.attr == "is_directory" for i in ast.walk(maps[0]) if isinstance(i, ast.If) for a in ast.walk(i.test)):
+        rep.ok({"folder_map": f"skips exactly the entries whose `{isdir}` excluded them from the sizes"})
+    else:
+        rep.fail(Finding("C10-FOLDER", SZ, bf.qual, "folder map predicate", "the entries that take a slot in a folder are not selected by the same flag (`is_directory`) that decided whether they took a sub-stream size: files are attached to the wrong folder position", line=bf.node.lineno))
+
+
 def rule_folder(ctx: Ctx) -> RuleReport:
-    rep = RuleReport("C10-FOLDER", "7z: the read position of each folder depends on the folder being decoded")
+    rep = RuleReport("C10-FOLDER", "7z: the read position of each folder depends on the folder being decoded; sub-stream sizes and folder slots are consumed exactly by entries that have a stream")
+    _streams_consumed(ctx, rep)
     ex = ctx.p.func(SZ, "SevenZipReader.extractall")
     rep.unit(ex.key)
     loops = [n for n in walk_own(ex.node) if isinstance(n, ast.For) and "self._folders" in norm(n.iter)]
